@@ -146,6 +146,69 @@ def _state_loop_var(fi) -> str:
     raise AnalysisError(f"state-lists loop not found in {fi.qual}")
 
 
+def inverse_root_selection(ctx, rep, rule: str) -> None:
+    """Which root a block of tensor order k gets: override 0 -> the default rule of the list class (2k for Shampoo, 2 for the
+    eigenvalue-corrected list); an integer override n -> n; a sequence l -> l[k] while k < len(l), the default rule beyond.
+    The selection routine is interpreted on concrete (override, orders) cases; the two list classes must pass their documented
+    default rule."""
+    from ..guards import Interp, Raised, Returned, Unsupported
+
+    repo = ctx.repo
+    base_q = f"{PL_MOD}:BaseShampooPreconditionerList"
+    fi = repo.method(base_q, "_get_inverse_roots_from_override_with_high_order_default")
+    params = [p for p in fi.params if p not in ("self", "cls")]
+    if len(params) != 3:
+        raise AnalysisError(f"{fi.qual}: expected (override, order list, default rule), found {params}")
+    body = [s for s in fi.node.body if not (isinstance(s, ast.Expr) and isinstance(s.value, ast.Constant))]
+    overrides = [0, 1, 3, [4], [3, 1, 4, 2], [7, 7], (5, 6, 7), []]
+    orders = [(0,), (1,), (2,), (0, 1, 2, 3, 4), (2, 2, 1), (), (4, 3)]
+    rules_ = {"2k": lambda o: 2 * o, "2": lambda o: 2, "k+10": lambda o: o + 10}
+    bad = []
+    n = 0
+    for ov in overrides:
+        for ol in orders:
+            for rn, hod in rules_.items():
+                env = {params[0]: ov, params[1]: ol, params[2]: hod}
+                got = None
+                try:
+                    Interp(env).run(body, lambda e: ast.unparse(e))
+                except Returned as r:
+                    got = r.value
+                except Raised as r:
+                    got = f"raise {r.exc_name}"
+                except Unsupported as u:
+                    raise AnalysisError(f"{rule}: root selection outside the scalar sub-language: {u}") from u
+                if isinstance(ov, (list, tuple)):
+                    want = tuple(hod(o) if o >= len(ov) else ov[o] for o in ol)
+                else:
+                    want = tuple(hod(o) for o in ol) if ov == 0 else (ov,) * len(ol)
+                n += 1
+                if not (isinstance(got, (list, tuple)) and tuple(got) == want):
+                    bad.append((ov, ol, rn, got, want))
+    rep.ob(rule, "root-selection:override-semantics", not bad, fi.loc(), f"{n} (override, orders, default rule) cases: 0 -> default rule per order, n -> n, sequence l -> l[order] within its length and the default rule beyond" + (f"; first disagreement: override={bad[0][0]!r}, orders={bad[0][1]}, rule {bad[0][2]}: code gives {bad[0][3]!r}, documented {bad[0][4]!r}" if bad else ""), sample=True)
+    # the default rules handed in by the two list classes
+    want_rule = {"ShampooPreconditionerList": {0: 0, 1: 2, 2: 4, 3: 6}, "EigenvalueCorrectedShampooPreconditionerList": {0: 2, 1: 2, 2: 2, 3: 2}}
+    for cname, table in want_rule.items():
+        m_ = repo.method(f"{PL_MOD}:{cname}", "_get_inverse_roots_from_override")
+        calls = [c for c in A.calls(m_.node) if isinstance(c.func, ast.Attribute) and c.func.attr == fi.name or isinstance(c.func, ast.Name) and c.func.id == fi.name]
+        ok = len(calls) == 1
+        detail = f"{len(calls)} call(s) of the selection routine"
+        if ok:
+            c = calls[0]
+            lam = A.arg_of(c, fi, params[2])
+            a0, a1 = A.arg_of(c, fi, params[0]), A.arg_of(c, fi, params[1])
+            fwd = a0 is not None and a1 is not None and ast.unparse(a0) == m_.params[-2] and ast.unparse(a1) == m_.params[-1]
+            vals = None
+            if isinstance(lam, ast.Lambda) and len(lam.args.args) == 1:
+                try:
+                    vals = {k: Interp({lam.args.args[0].arg: k}).ev(lam.body) for k in table}
+                except Unsupported:
+                    vals = None
+            ok = fwd and vals == table
+            detail = f"forwards (override, orders): {fwd}; default rule on orders 0..3: {vals} (documented {table})"
+        rep.ob(rule, f"root-selection:default-rule:{cname}", ok, m_.loc(), detail, sample=True)
+
+
 def run(ctx, rep) -> None:
     repo = ctx.repo
     pts = ctx.engine("pts")
@@ -168,6 +231,8 @@ def run(ctx, rep) -> None:
     from .c03 import exact_diagonal_flag
 
     rep.attempt("exact_diagonal_flag", exact_diagonal_flag, ctx, rep, "C01.7")
+    rep.rule("C01.8", "inverse-root selection per tensor order: override 0 -> default rule (2k Shampoo / 2 eigenvalue-corrected), n -> n, sequence -> entry of that order, default rule beyond its length")
+    rep.attempt("inverse_root_selection", inverse_root_selection, ctx, rep, "C01.8")
     rep.attempt("_wiring", _wiring, ctx, rep)
     from .common import hyperparameters_from_group
 
